@@ -207,7 +207,47 @@ def _sec_collapse(tree, t):
         raise TranslateError("collapse: factors are no longer picked through the row-number column (sorted_terms[:, -1])")
 
 
-SECTIONS = [("__mul__", _sec_mul), ("collapse", _sec_collapse), ("ConvertPauli", _sec_convert), ("integer_to_binary", _sec_binary),
+def _assigned_self_attrs(fn):
+    out = []
+    for n in ast.walk(fn):
+        tg = n.targets if isinstance(n, ast.Assign) else ([n.target] if isinstance(n, ast.AugAssign) else [])
+        for t_ in tg:
+            for e in (t_.elts if isinstance(t_, (ast.Tuple, ast.List)) else [t_]):
+                if isinstance(e, ast.Attribute) and isinstance(e.value, ast.Name) and e.value.id == "self":
+                    out.append((e.attr, n.value))
+    return out
+
+
+def _sec_inplace(tree, t):
+    """The in-place methods of MultiformOperator keep several redundant forms (factors, integer, binary, binary_swap,
+    terms).  Extracted: for remove_terms, the attributes that receive a SHORTENED array -- self.X = np.delete(self.X, idx,
+    axis=0) or self.X = self.X[mask] -- plus `terms` when it is rebuilt from (self.integer, self.factors); for _update,
+    the attributes it assigns.  props/C16.v requires all forms to be in these lists."""
+    rt = find_def(tree, "remove_terms", cls="MultiformOperator")
+    upd = []
+    for attr, v in _assigned_self_attrs(rt):
+        ok = False
+        if isinstance(v, ast.Call) and isinstance(v.func, ast.Attribute) and v.func.attr == "delete" and v.args \
+                and _attr_chain(v.args[0]) == "self." + attr:
+            kw = {k.arg: k.value for k in v.keywords}
+            ok = "axis" in kw and isinstance(kw["axis"], ast.Constant) and kw["axis"].value == 0
+        elif isinstance(v, ast.Subscript) and _attr_chain(v.value) == "self." + attr:
+            ok = True
+        elif attr == "terms" and isinstance(v, ast.Call) and isinstance(v.func, ast.Name) \
+                and v.func.id == "integer_to_qubit_terms" and [_attr_chain(a) for a in v.args] == ["self.integer", "self.factors"]:
+            ok = True
+        if not ok:
+            raise TranslateError("remove_terms: unexpected assignment to self.%s: %s" % (attr, ast.unparse(v)[:80]))
+        upd.append(attr)
+    t["remove_terms_updates"] = sorted(set(upd))
+    up = find_def(tree, "_update", cls="MultiformOperator")
+    t["update_assigns"] = sorted(set(a for a, _ in _assigned_self_attrs(up)))
+    cp = find_def(tree, "compress", cls="MultiformOperator")
+    if "self._update(" not in ast.unparse(cp):
+        raise TranslateError("compress no longer calls self._update")
+
+
+SECTIONS = [("__mul__", _sec_mul), ("collapse", _sec_collapse), ("in-place methods", _sec_inplace), ("ConvertPauli", _sec_convert), ("integer_to_binary", _sec_binary),
             ("do_commute", _sec_commute)]
 
 # last known good content of every section (tree at the `fix:` commits for C16); used ONLY to keep the
@@ -221,6 +261,8 @@ FALLBACK = {
     "commute_reduction": "any",
     "collapse_index_max": None,
     "collapse_index_dtype": "int",
+    "remove_terms_updates": ["binary", "binary_swap", "factors", "integer", "terms"],
+    "update_assigns": ["binary", "binary_swap", "factors", "integer", "kernel", "n_qubits"],
 }
 
 
@@ -274,6 +316,9 @@ def emit(t, fallback=()):
          "Definition do_commute_reduces_with_all : bool := %s." % ("true" if t["commute_reduction"] == "all" else "false"),
          'Definition phase_product_function : string := "%s"%%string.' % t["prod_name"], "",
          "(* largest row number the index column of MultiformOperator.collapse can hold (dtype %s); None = no bound *)" % t["collapse_index_dtype"],
+         "(* attributes shortened / rebuilt by remove_terms, attributes assigned by _update *)",
+         "Definition remove_terms_updates : list string := [%s]%%string." % "; ".join('"%s"' % a for a in t["remove_terms_updates"]),
+         "Definition update_assigns : list string := [%s]%%string." % "; ".join('"%s"' % a for a in t["update_assigns"]),
          "Definition collapse_index_max : option N := %s." % (
              "None" if t["collapse_index_max"] is None else "Some %d%%N" % t["collapse_index_max"])]
     return "\n".join(L) + "\n"
